@@ -90,8 +90,10 @@ func loadWorld(repo string) *World {
 			continue
 		}
 		if w.inModule(fn) {
-			w.ModFns = append(w.ModFns, fn)
 			w.fnSet[fn] = true
+			if fn.Synthetic == "" || strings.HasPrefix(fn.Synthetic, "package init") {
+				w.ModFns = append(w.ModFns, fn)
+			}
 		}
 	}
 	sort.Slice(w.ModFns, func(i, j int) bool {
@@ -308,6 +310,8 @@ func fnName(fn *ssa.Function) string {
 	}
 	s := fn.String()
 	s = strings.ReplaceAll(s, modPath+"/", "")
+	s = strings.ReplaceAll(s, modPath+".", "diskfs.")
+	s = strings.ReplaceAll(s, modPath+")", "diskfs)")
 	// keep only the last path element of the package
 	// forms: (*a/b/pkg.T).M   a/b/pkg.F   (a/b/pkg.T).M
 	out := strings.Builder{}
